@@ -338,7 +338,8 @@ def check_space_written(ctx):
   me = next((p_ for p_ in f.params if p_.startswith("model_")), None)
   if me is None:
     raise AnalysisError(f"{f.qualname}: the model element parameter was not found")
-  test = substitute(g.test, {f"{me}.parent().get_space()": "__pspace", f"{me}.get_space()": "__space", f"{me}.parent()": "__parent"})
+  # (the locals the guard reads - parent, space, a flag computed by if / else - are replaced by the values they hold there)
+  test = substitute(match.inline_locals_deep(f.node, g.test), {f"{me}.parent().get_space()": "__pspace", f"{me}.get_space()": "__space", f"{me}.parent()": "__parent"})
   ce = ConstEval(ix, symbolic_ok=False)
   ws = ix.cls("ttconv.model:WhiteSpaceHandling")
   vals = {n: ce.ev(f.module, ast.parse(f"model.WhiteSpaceHandling.{n}", mode="eval").body) for n, _ in ix.enum_members(ws)}
